@@ -198,7 +198,9 @@ def r2(prog, rep):
         rep.ob("R2", "circular (constant q): d psi_r/dr == dpsidr_r", e1.is_zero(), site, "residual " + e1.residual()[:160], key="circular/profile-1")
         rep.ob("R2", "circular (constant q): d dpsidr_r/dr == d2psidr2_r", e2.is_zero(), site, "residual " + e2.residual()[:160], key="circular/profile-2")
     except AlgError as e:
-        rep.undecided("circular radial profile consistency not representable: %s" % e)
+        # never a silent pass: the two obligations are filed as not decided
+        for k in ("circular/profile-1", "circular/profile-2"):
+            rep.ob("R2", "circular (constant q): radial profile derivative chain (%s)" % k, False, site, "not representable: %s" % e, key=k)
     # the profile rules below model self.q / self.dqdr as q = a0 + a1 r^2, dq/dr = 2 a1 r: what the
     # two methods actually compute is decided here, as written, for one to three coefficients
     circular_q_rules(prog, rep, site)
@@ -223,7 +225,8 @@ def r2(prog, rep):
         rep.ob("R2", "circular (q = a0 + a1 r^2): d psi_r/dr == dpsidr_r", e1.is_zero(), site, "residual " + e1.residual()[:160], key="circular/profile2-1")
         rep.ob("R2", "circular (q = a0 + a1 r^2): d dpsidr_r/dr == d2psidr2_r", e2.is_zero(), site, "residual " + e2.residual()[:160], key="circular/profile2-2")
     except AlgError as e:
-        rep.undecided("circular radial profile (two q coefficients) not representable: %s" % e)
+        for k in ("circular/profile2-1", "circular/profile2-2"):
+            rep.ob("R2", "circular (q = a0 + a1 r^2): radial profile derivative chain (%s)" % k, False, site, "not representable: %s" % e, key=k)
 
 
 def circular_q_rules(prog, rep, site):
@@ -346,17 +349,22 @@ class ProfileEx(ClassEx):
         return self.call_closure(fn, [x], {})
 
     def _collect(self, stmts, env, ncoef):
-        for s in stmts:
+        from ..model import arm_for
+
+        def match(t):
+            return isinstance(t, ast.Compare) and len(t.ops) == 1 and isinstance(t.ops[0], ast.Eq) and "len(coef" in self.text(t.left) \
+                and isinstance(t.comparators[0], ast.Constant) and t.comparators[0].value == ncoef
+
+        for i, s in enumerate(stmts):
             if isinstance(s, ast.FunctionDef):
                 env[s.name] = Closure(s, env, self)
             elif isinstance(s, ast.If):
-                t = self.text(s.test)
-                if "len(coef" in t and "== %d" % ncoef in t:
-                    self._collect(s.body, env, ncoef)
-                elif "len(coef" in t:
-                    for e in s.orelse:
-                        if isinstance(e, ast.If):
-                            self._collect([e], env, ncoef)
+                if "len(coef" in self.text(s.test):
+                    # the arm for this number of coefficients, however the dispatch is spelled
+                    arm = arm_for(stmts[i:], match)
+                    if arm is not None:
+                        self._collect(arm, env, ncoef)
+                        return
             elif isinstance(s, ast.Assign):
                 try:
                     self.stmt(s, env)
